@@ -82,6 +82,7 @@ def groups(tier, seed):
                 for squared in (False, True):
                     out.append(dict(fn=fn, d=d, cell=which, squared=squared, tier=tier))
     out.append(dict(fn="dimcheck", d=2, cell="unit", squared=False, tier=tier))
+    out.append(dict(fn="bigstack", d=3, cell="aniso", squared=True, tier=tier))
     return out
 
 
@@ -148,6 +149,26 @@ def check(case):
         r.nontrivial = True
         return r
 
+    if fn == "bigstack":
+        # 300 x 300 points, 80 precisions (2.16e7 pair-matrix entries): every matrix of the stack on its own
+        rng = np.random.default_rng(2024)
+        Pb = np.round(rng.uniform(-3, 3, size=(300, d)) * 64) / 64
+        cellb = np.array(_cell(d, "aniso"), float)
+        Ls = [np.eye(d) + 0.1 * ((i % 7) - 3) * np.tril(np.ones((d, d)), -1) + 0.05 * (i % 5) * np.eye(d) for i in range(80)]
+        stack = np.array([L @ L.T for L in Ls])
+        S = np.asarray(pairwise_mahalanobis_distances(Pb, Pb, stack, cell_length=cellb, squared=True), float)
+        r.transitions += 1
+        if S.shape != (80, 300, 300):
+            return r.fail("stack-shape", "%s" % (S.shape,))
+        for t in (0, 1, 39, 61, 62, 63, 78, 79):
+            single = np.asarray(pairwise_mahalanobis_distances(Pb, Pb, stack[t], cell_length=cellb, squared=True), float)[0]
+            r.transitions += 1
+            r.states += 300 * 300
+            if np.abs(single - S[t]).max() > 1e-9 * max(1.0, np.abs(single).max()):
+                return r.fail("stack-not-independent", "large stack, matrix %d: max diff %.3g" % (t, np.abs(single - S[t]).max()))
+        r.nontrivial = True
+        r.outcome = ["bigstack"]
+        return r
     cell = None if which == "none" else np.array(_cell(d, which), float)
     cvec = np.ones(d) if cell is None else cell
     P = _points(d, cvec, tier, compact=(which == "slab"))
@@ -277,6 +298,13 @@ def check(case):
     fresh = call(Pa.copy(), Pb.copy())
     if np.abs(again - fresh).max() > 1e-12 * max(1.0, np.abs(fresh).max()):
         r.fail("result-depends-on-array-identity", "second call with the same (updated) array object differs from fresh arrays by %.3g" % np.abs(again - fresh).max())
+    # two different point sets that are overlapping views of ONE array (consecutive frames of a trajectory)
+    if n >= 4:
+        A_, B_ = P[:-1], P[1:]
+        ov = call(A_, B_)
+        cp = call(A_.copy(), B_.copy())
+        if ov.shape != cp.shape or np.abs(ov - cp).max() > 1e-12 * max(1.0, np.abs(cp).max()):
+            r.fail("overlapping-views-treated-differently-from-copies", "max diff %.3g" % np.abs(ov - cp).max())
     outside = bool((np.abs(P) > cvec[None, :]).any()) if cell is not None else True
     r.nontrivial = outside and (cell is None or half_pairs > 0)
     r.count("half_cell_pairs", half_pairs)
